@@ -1354,11 +1354,13 @@ class FieldUnpackerCodeBlockBuilder:
                 fname
             ),
         )
+        # Annotated[Optional[X], ...] is as nullable as Optional[X]
+        bare_type = get_type_origin(ftype) if is_annotated(ftype) else ftype
         could_be_none = (
-            ftype in (typing.Any, type(None), None)
+            bare_type in (typing.Any, type(None), None)
             or is_type_var_any(self.parent.get_real_type(fname, ftype))
             or is_optional(
-                ftype, self.parent.get_field_resolved_type_params(fname)
+                bare_type, self.parent.get_field_resolved_type_params(fname)
             )
             or default is None
         )
